@@ -355,13 +355,13 @@ pub const TEXTS: &[&str] = &[
 ];
 
 fn line_strategy() -> impl Strategy<Value = Line> {
-    prop_oneof![6 => proptest::sample::select(TEXTS).prop_map(|t| Line::Text(t.to_string())), 1 => "[a-z ]{1,8}".prop_map(|t| Line::Text(if t.trim().is_empty() { "x".into() } else { t })), 3 => (0usize..4).prop_map(Line::Empty)]
+    crate::oneof![6 => proptest::sample::select(TEXTS).prop_map(|t| Line::Text(t.to_string())), 1 => "[a-z ]{1,8}".prop_map(|t| Line::Text(if t.trim().is_empty() { "x".into() } else { t })), 3 => (0usize..4).prop_map(Line::Empty)]
 }
 
 pub fn case_strategy() -> impl Strategy<Value = BlockCase> {
     (
         (any::<bool>(), 0u8..3, proptest::collection::vec(line_strategy(), 0..6), proptest::collection::vec(0usize..4, 0..4)),
-        (proptest::bool::weighted(0.3), any::<bool>(), proptest::bool::weighted(0.15), 0usize..CONTEXTS.len(), prop_oneof![3 => Just(0usize), 2 => 1usize..4, 1 => 4usize..12], prop_oneof![4 => Just(0u8), 1 => Just(1u8), 1 => Just(2u8)], any::<bool>()),
+        (proptest::bool::weighted(0.3), any::<bool>(), proptest::bool::weighted(0.15), 0usize..CONTEXTS.len(), crate::oneof![3 => Just(0usize), 2 => 1usize..4, 1 => 4usize..12], crate::oneof![4 => Just(0u8), 1 => Just(1u8), 1 => Just(2u8)], any::<bool>()),
     )
         .prop_map(|((folded, chomp, lines, trail), (explicit, indicator_first, header_comment, ctx, extra, eof, sibling))| BlockCase {
             folded,
